@@ -31,7 +31,7 @@ REQUIRED = {"line.selects_entity_scenarios": {"quick": 8000, "thorough": 500000}
             "multi.union_of_selections": {"quick": 1500, "thorough": 80000},
             "files.per_file_selection": {"quick": 250, "thorough": 12000}, "listfile.same_as_direct": {"quick": 100, "thorough": 5000},
             "listfile.mixed_with_direct_locations": {"quick": 100, "thorough": 5000},
-            "locparser.roundtrip": {"quick": 500, "thorough": 20000}, "name.selects_matching": {"quick": 150, "thorough": 6000},
+            "locparser.roundtrip": {"quick": 500, "thorough": 20000}, "name.selects_matching": {"quick": 150, "thorough": 6000}, "line.selection_kept_under_the_autoretry_recipe": {"quick": 60, "thorough": 3000},
             "setup_teardown.never_skipped": {"quick": 40, "thorough": 2000}}
 REQUIRED_SEEN = {"entity_kind_addressed": ["feature", "rule", "outline", "row", "scenario", "line0", "other_line", "beyond_end"],
                  "argument_list_shape": ["DL", "LD", "LL", "DLD"], "wildcard_listfile_place": ["working_directory", "sub_directory"],
@@ -436,6 +436,32 @@ def run(spec, mon):
                 skipped_ok = all((s.status.name == "skipped") for s in feats[0].walk_scenarios() if s.name not in want)
                 mon.check("name.selects_matching", entered == want and skipped_ok,
                           lambda: W(patterns=pats, location_line=loc_line, entered=entered, want=want, others_skipped=skipped_ok))
+            if not doc.protected and doc.entity_lines:
+                # a file:LINE run of a project whose environment.py uses the documented auto-retry recipe (in before_feature every
+                # scenario / outline is patched with behave.contrib.scenario_autoretry): what runs is still what the line addresses
+                from behave.contrib.scenario_autoretry import patch_scenario_with_autoretry
+                from behave.model import ScenarioOutline
+                line = rng.choice(doc.entity_lines)
+                addressed = set(doc.expected(line)[1])
+                feats2 = parse_features([FileLocation(doc.fname, line)])
+                scs2 = list(feats2[0].walk_scenarios())
+                if len(scs2) == len(doc.all_ids):
+                    want2 = [id(sc_) for sc_, sid in zip(scs2, doc.all_ids) if sid in addressed]
+                    entered2 = []
+
+                    def rec2(state, context, name, elem, tag):
+                        if name == "before_feature":
+                            for x in elem.walk_scenarios(with_outlines=True):
+                                if isinstance(x, ScenarioOutline) or not isinstance(getattr(x, "parent", None), ScenarioOutline):
+                                    patch_scenario_with_autoretry(x, max_attempts=2)
+                        if name == "before_scenario" and (not entered2 or entered2[-1] != id(elem)):
+                            entered2.append(id(elem))
+                    obs2 = lab.run({"features": [], "outcomes": {}}, args=[], features=feats2, hook_plugins=[rec2])
+                    mon.case(("location+autoretry", doc.text, line), 0 < len(want2) < len(scs2))
+                    others = [sc_.status.name for sc_, sid in zip(scs2, doc.all_ids) if sid not in addressed]
+                    mon.check("line.selection_kept_under_the_autoretry_recipe", obs2.escaped is None and entered2 == want2 and all(o == "skipped" for o in others),
+                              lambda: W(location_line=line, escaped=repr(obs2.escaped), entered=[sc_.name for sc_ in scs2 if id(sc_) in entered2],
+                                        want=[sc_.name for sc_ in scs2 if id(sc_) in want2], statuses_of_the_others=others))
             if d == 0 and spec["shard"] == 0:
                 mon.sample({"text": doc.text, "entity_lines": {str(k): v[0] for k, v in doc.entities.items()},
                             "example": {"line": doc.entity_lines[-1], "selects": doc.entities[doc.entity_lines[-1]][1]}})
